@@ -905,7 +905,7 @@ class HState:
             r, _ = o.do(f"EXAMINE {_q(name)}")
             if r is None or r.typ != "OK":
                 continue
-            r, resps = o.do("FETCH 1:* (UID RFC822.SIZE BODY.PEEK[] BODY.PEEK[HEADER] BODY.PEEK[TEXT])")
+            r, resps = o.do("FETCH 1:* (UID RFC822.SIZE BODY.PEEK[] BODY.PEEK[HEADER] BODY.PEEK[TEXT] ENVELOPE BODYSTRUCTURE)")
             for x in resps:
                 if x.kind != "untagged" or x.typ != "FETCH" or x.errors:
                     continue
@@ -924,6 +924,23 @@ class HState:
                 m = mb.by_uid(int(it["UID"]))
                 if m is not None and msgs.cid_of(full) != m.cid:
                     self.fail("C16.body-of-other-message", det, m.cid, msgs.cid_of(full))
+                # the structural items describe this message, not one that used to have its number: the decoded ENVELOPE subject
+                # and message-id carry the content id, BODYSTRUCTURE's octet count is that of BODY[TEXT]
+                env = it.get("ENVELOPE")
+                if m is not None and isinstance(env, list) and len(env) == 10:
+                    subj = env[1]
+                    subj = bytes(subj) if isinstance(subj, (bytes, bytearray)) else str(subj).encode("latin-1")
+                    mid = env[9]
+                    mid = bytes(mid) if isinstance(mid, (bytes, bytearray)) else str(mid).encode("latin-1")
+                    if msgs.cid_of(subj) != m.cid or f"<{m.cid}@".encode() not in mid:
+                        self.fail("C07.envelope-of-other-message", det, m.cid, (subj[:60].decode("latin-1"), mid[:60].decode("latin-1")))
+                bs = it.get("BODYSTRUCTURE")
+                if isinstance(bs, list) and len(bs) >= 7 and it.get("BODY[TEXT]") is not None and not isinstance(bs[0], list):
+                    try:
+                        if int(str(bs[6])) != len(bytes(it["BODY[TEXT]"])):
+                            self.fail("C07.bodystructure-of-other-message", det, len(bytes(it["BODY[TEXT]"])), int(str(bs[6])))
+                    except ValueError:
+                        pass
             # the same sizes drive SEARCH LARGER / SMALLER
             sizes = {}
             for x in resps:
